@@ -478,7 +478,7 @@ def run(ctx):
     for rj in rejections + frej:
         report_rejection(ctx, rj)
     # --- binding self-test: corrupt one recorded value / turn one compile error into a value
-    binding = self_test(ctx, recs) if not ctx.quick else None
+    binding = self_test(ctx, recs, frecs) if not ctx.quick else None
     per = {g.r: len(g.obs) for g in (ga, gg, gb, gp, gc)}
     per["f"] = len(frecs)
     kinds = {}
@@ -509,7 +509,7 @@ def run(ctx):
     ])
 
 
-def self_test(ctx, recs):
+def self_test(ctx, recs, frecs=()):
     """Binding: a corrupted value, a value in place of a compile error, and a compile error in place of a value must be rejected."""
     import copy
     muts = []
@@ -539,6 +539,23 @@ def self_test(ctx, recs):
         res[name] = "rejected" if rej else "ACCEPTED"
         if not rej:
             raise ToolError("C06 binding self-test: Trace_ConstEval accepted a corrupted observation (%s)" % name)
+    # the IR pass: a folded constant with one bit flipped, and "not folded" turned into a constant
+    fm = []
+    for r in frecs:
+        o = r["obs"][0]
+        if o["k"] == "folded" and r["ty"] == "u8" and r["e"]["k"] == "un" and not any(m[0] == "fold-flip" for m in fm):
+            m = copy.deepcopy(r)
+            m["obs"][0]["logs"][0][-2] ^= 0xFF            # what dropping the `& max` of the Not rule would produce
+            fm.append(("fold-flip", m))
+        if o["k"] == "notfolded" and r["exp"] == "abort" and not any(m[0] == "fold-trap" for m in fm):
+            m = copy.deepcopy(r)
+            m["obs"] = [dict(o, k="folded", logs=[[0] * (32 if r["ty"] in ("u256", "b256") else 8)])]
+            fm.append(("fold-trap", m))
+    for name, m in fm:
+        _, rej = validate_shard(ctx, 0, [m], tag="bind-" + name, cfg="Trace_ConstEvalFold")
+        res[name] = "rejected" if rej else "ACCEPTED"
+        if not rej:
+            raise ToolError("C06 binding self-test: Trace_ConstEval (fold) accepted a corrupted observation (%s)" % name)
     # the model itself: with the two repaired defects switched back on, TLC must find NoPanic violated
     for const, cls, ty in (("F12Fixed", ["bin"], ["u256"]), ("B256CmpFixed", ["b256"], [])):
         cfg = mc_cfg(ctx, "MC_ConstEval_un" + const, ClsSel=tla_set(cls), TySel=tla_set(ty), BSel=tla_set([1, 2]),
